@@ -264,7 +264,8 @@ func checkC16(w *World, r *Report) {
 			if s.Static == split {
 				splits = append(splits, s)
 			}
-			if strings.HasSuffix(s.CalleeName(), "keeper.Keeper.SetAccountVestingPools") {
+			if strings.HasSuffix(s.CalleeName(), "keeper.Keeper.SetAccountVestingPools") || (s.Static == nil && !s.Invoke && len(s.Callees) > 0 && calleeIs(s, "x/cfevesting/keeper.Keeper.SetAccountVestingPools")) {
+				// the method itself, or the method handed in as a function value
 				persists = append(persists, s)
 			}
 		}
@@ -390,13 +391,14 @@ func checkC16(w *World, r *Report) {
 	// ---------- C16.accounts ----------
 	{
 		nset := 0
-		for _, fs := range FieldStores(upacc) {
-			if fs.Struct == nil || fs.Struct.Obj().Pkg() == nil || !strings.Contains(fs.Struct.Obj().Pkg().Path(), "x/auth/") {
-				continue
-			}
+		// the modification may sit in a helper of the per-account routine
+		for _, sb := range w.storesBelowP(upacc, func(fs FieldStore) bool {
+			return fs.Struct != nil && fs.Struct.Obj().Pkg() != nil && strings.Contains(fs.Struct.Obj().Pkg().Path(), "x/auth/")
+		}, 2, nil) {
+			fs := sb.FS
 			ok := fs.Field == "StartTime" || fs.Field == "EndTime"
 			if ok {
-				o := w.Tracer().Origins(fs.Store.Val)
+				o := w.Tracer().OriginsOfStore(upacc, sb)
 				ok = o.HasPath("."+fs.Field) && o.HasOp("time.Time.AddDate")
 				other := "EndTime"
 				if fs.Field == "EndTime" {
@@ -408,15 +410,14 @@ func checkC16(w *World, r *Report) {
 			}
 			r.Check(ok, "C16.accounts", "account upgrade writes "+fs.Struct.Obj().Name()+"."+fs.Field, w.Pos(fs.Store.Pos()), "shifted from its own old value", "the account upgrade rewrites a field other than its start/end time, or derives it from something else than its own old value")
 		}
-		for _, s := range cg.Sites[upacc] {
-			if cg.Atom(s) == AuthSet {
-				nset++
-				acc := s.Args()[len(s.Args())-1]
-				// the very object that was read (type-asserted), not a rebuilt copy: a constructor would reset
-				// every field it is not given (DelegatedVesting, DelegatedFree)
-				same := isObjectReadBy(acc, ".GetAccount")
-				r.Check(same, "C16.accounts", "account upgrade stores the account object it read", w.Pos(s.Instr.Pos()), "SetAccount receives the type-asserted result of GetAccount", "the stored account is rebuilt instead of being the object that was read: fields that are not copied (delegated vesting / delegated free) are lost")
-			}
+		for _, e := range w.effectsBelow(upacc, func(s *Site) bool { return cg.Atom(s) == AuthSet }, 2) {
+			s := e.Site
+			nset++
+			acc := s.Args()[len(s.Args())-1]
+			// the very object that was read (type-asserted), not a rebuilt copy: a constructor would reset
+			// every field it is not given (DelegatedVesting, DelegatedFree)
+			same := isObjectReadBy(acc, ".GetAccount")
+			r.Check(same, "C16.accounts", "account upgrade stores the account object it read", w.Pos(s.Instr.Pos()), "SetAccount receives the type-asserted result of GetAccount", "the stored account is rebuilt instead of being the object that was read: fields that are not copied (delegated vesting / delegated free) are lost")
 		}
 		if nset == 0 {
 			r.Bad("C16.accounts", "account upgrade stores the account", w.Pos(upacc.Pos()), "no SetAccount")
